@@ -24,6 +24,7 @@ registry! {
     "C16" => c16,
     "C17" => c17,
     "C24" => c24,
+    "C36" => c36,
 }
 
 /// Worker-side execution of check-specific requests.
